@@ -1,7 +1,7 @@
 """Job table: every CBMC run the driver knows, and per-property metadata."""
 JOBS = []
 PROPS = {}
-SOURCE_COMMITS = []
+SOURCE_COMMITS = []   # hook commits in /repo (none: contracts live in /verif); fix: commits are listed in known_findings.txt
 # properties not (yet) claimed, with the reason that goes to MANIFEST.not_applicable
 UNCLAIMED = {}
 
@@ -50,6 +50,19 @@ J(name="c20.roundtrip", props=["C20"], harness="c20.c", entry="h_roundtrip",
   replace=["h3ToString", "stringToH3"], replay=dict(fn="h3ToString", args=["h", "=17"]))
 
 # ------------------------------------------------------------------ C04
+PROPS["C04"] = dict(
+    level="proof",
+    explanation="enforced contracts on cellToParent, cellToChildrenSize, cellToCenterChild, _iterInitParent, iterStepChild (all resolutions at "
+                "once, bit level: the step yields the least legal descendant above the current one, equal to the closed-form spec successor), "
+                "the rank lemma by induction over digit levels (pos(next(y)) == pos(y)+1, range, monotonicity), their composition into the "
+                "full iterator contract, and cellToChildren's loop contract (slot g holds the descendant of rank g) per resolution pair",
+    trusted_base=[], assumptions=[],
+    not_decided=["the centre child's centre POINT coincides with the parent's (spherical geometry; CBMC has no libm semantics)"],
+    level_text="Unbounded proof: contracts are enforced on the real functions for all 2^64 inputs / all resolutions; loops are closed by loop "
+               "contracts or by unwinding to the width of the 4-bit resolution field with unwinding assertions (complete). The induction "
+               "over digit levels and the instantiation of lemma instances are the only steps composed on paper.",
+    level_note="Trusts CBMC/DFCC/CaDiCaL; cellToChildren jobs run with bounds and pointer checks only (the other generic checks do not "
+               "terminate on the large invariant); geometry clause not decided.")
 UNW = dict(unwind=17, cbmc=[])   # digit loops: at most 15 iterations (4-bit resolution field); unwinding assertions make it complete
 J(name="c04.isPentagon", props=["C04", "C12", "C18"], harness="c04.c", entry="h_isPentagon",
   enforce=["isPentagon"], unwind=17, replay=dict(fn="isPentagon", args=["h"]))
@@ -73,16 +86,102 @@ J(name="c04.iterInitParent", props=["C04", "C12", "C18"], harness="c04.c", entry
 J(name="c04.iterStepChild.bits", props=["C04", "C12", "C18"], harness="c04.c", entry="h_iterStepChild",
   enforce=["iterStepChild/iterStepChild_bits_contract"], unwind=18, timeout=1800)
 
-# position arithmetic of the step, one complete proof per (parentRes, childRes) pair (the 136 pairs are the whole domain)
+J(name="c04.iterStepChild.compose", props=["C04"], harness="c04.c", entry="h_iterStepChild_compose",
+  defs=["H3V_ABSTRACT_POSN=1"], replace=["iterStepChild/iterStepChild_bits_contract"], timeout=900,
+  lemma_assumed="rank lemma (c),(d),(a) instantiated at the old iterate; proved by jobs lemma.rank.*")
+C04_CC = "S_CENTER_CHILD(h, childRes)"
+# the invariant is a very large expression; CBMC's generic check instrumentation (conversion/shift/overflow checks on every
+# sub-term of the spec macros) does not terminate on it, so these jobs keep the memory-safety checks only
+C04_LOOPS = dict(checks=["--no-standard-checks", "--bounds-check", "--pointer-check"], loops=[dict(fn="cellToChildren", loop=0, locals=["i", "iter", "children", "h", "childRes"],
+              assigns="i, iter, __CPROVER_object_whole(children)",
+              inv="(!C04_VALID_ARGS(h, childRes) ==> (iter.h == 0 && i == 0)) && "
+                  "(C04_VALID_ARGS(h, childRes) ==> ("
+                  "0 <= i && i <= S_NCHILD(h, childRes) && "
+                  "(iter.h == 0 ==> i == S_NCHILD(h, childRes)) && "
+                  "(iter.h != 0 ==> (S_ITER_WF(iter.h, iter._parentRes, iter._skipDigit) && iter._parentRes == S_RES(h) && "
+                  "S_SAME_ANC(iter.h, S_CENTER_CHILD(h, childRes), S_RES(h)) && S_POSM(iter.h, S_RES(h)) == i && i < S_NCHILD(h, childRes))) && "
+                  "((0 <= h3v_g && h3v_g < i && children[h3v_g] == h3v_v) ==> (S_SAME_ANC(h3v_v, S_CENTER_CHILD(h, childRes), S_RES(h)) && "
+                  "S_WFDESC(h3v_v, S_RES(h)) && S_POSM(h3v_v, S_RES(h)) == h3v_g))))",
+              )])
+J(name="c04.cellToChildren.sym", props=["C04"], harness="c04.c", entry="h_cellToChildren", tier="never",
+  enforce=["cellToChildren"], replace=["_iterInitParent", "iterStepChild"], timeout=1200,
+  replay=dict(fn="cellToChildren", args=["h", "childRes"]), **C04_LOOPS)
 PAIRS = [(pr, cr) for pr in range(16) for cr in range(pr, 16)]
 for (pr, cr) in PAIRS:
-    J(name="c04.iterStepChild.pos.%d.%d" % (pr, cr), props=["C04"], harness="c04.c", entry="h_iterStepChild_pair",
-      defs=["PR=%d" % pr, "CR=%d" % cr], enforce=["iterStepChild"], unwind=18, timeout=900, pair=(pr, cr),
-      tier="quick" if cr - pr <= 1 or (pr, cr) in ((0, 15), (3, 9)) else "thorough")
-
+    J(name="c04.cellToChildren.%d.%d" % (pr, cr), props=["C04", "C12", "C18", "C01"], harness="c04.c", entry="h_cellToChildren_pair",
+      defs=["PR=%d" % pr, "CR=%d" % cr], enforce=["cellToChildren"], replace=["_iterInitParent", "iterStepChild"], timeout=900,
+      pair=(pr, cr), replay=dict(fn="cellToChildren", args=["h", "childRes"]), **C04_LOOPS)
 J(name="lemma.rank.base", props=["C04", "C13"], harness="lemmas.c", entry="h_lemma_base")
 for lev in range(1, 16):
     J(name="lemma.rank.unfold.%d" % lev, props=["C04", "C13"], harness="lemmas.c", entry="h_lemma_unfold",
       defs=["LEVEL=%d" % lev], timeout=600)
     J(name="lemma.rank.step.%d" % lev, props=["C04", "C13"], harness="lemmas.c", entry="h_lemma_step",
       defs=["LEVEL=%d" % lev], timeout=600)
+
+# ------------------------------------------------------------------ C13
+PROPS["C13"] = dict(
+    level="proof",
+    explanation="enforced contracts: cellToChildPos returns the spec rank sf_pos of the child (or the documented error), childPosToCell returns "
+                "the legal descendant whose rank is the given position (or the documented error); one complete proof per (parentRes, "
+                "childRes) pair; the rank lemma (injective, monotone, range [0,count)) makes the two mutually inverse and ties position i "
+                "to the i-th element of cellToChildren (C04 contract: slot g has rank g)",
+    trusted_base=[], assumptions=[], not_decided=[],
+    level_text="Unbounded proof per resolution pair (136 pairs are the whole domain; quick runs a seed-chosen subset plus the boundary pairs, "
+               "thorough all): all 2^64 cells and all 2^64 positions symbolic, loops unwound to the resolution-field width with unwinding "
+               "assertions.",
+    level_note="Trusts CBMC/DFCC/CaDiCaL. The inverse-bijection statement is the composition of the two contracts with the rank lemma "
+               "(injectivity), composed on paper.")
+J(name="c13.cellToChildPos.sym", props=["C13"], harness="c13.c", entry="h_cellToChildPos", tier="never",
+  enforce=["cellToChildPos"], unwind=17, timeout=1200)
+J(name="c13.childPosToCell.sym", props=["C13"], harness="c13.c", entry="h_childPosToCell", tier="never",
+  enforce=["childPosToCell"], unwind=17, timeout=1200)
+for (pr, cr) in PAIRS:
+    J(name="c13.cellToChildPos.%d.%d" % (pr, cr), props=["C13", "C12", "C18"], harness="c13.c", entry="h_cellToChildPos",
+      defs=["PR=%d" % pr, "CR=%d" % cr], enforce=["cellToChildPos"], unwind=17, timeout=900, pair=(pr, cr),
+      replay=dict(fn="cellToChildPos", args=["child", "parentRes"]))
+    J(name="c13.childPosToCell.%d.%d" % (pr, cr), props=["C13", "C12", "C18", "C01"], harness="c13.c", entry="h_childPosToCell",
+      defs=["PR=%d" % pr, "CR=%d" % cr], enforce=["childPosToCell"], unwind=17, timeout=900, pair=(pr, cr),
+      replay=dict(fn="childPosToCell", args=["pos", "parent", "childRes"]))
+
+# ------------------------------------------------------------------ C17
+PROPS["C17"] = dict(
+    level="proof",
+    explanation="per function: an enforced contract over the ghost allocator state (live-block count unchanged on every exit; a refused "
+                "request implies E_MEMORY_ALLOC), every allocation nondeterministically failing, callees replaced by their own contracts",
+    trusted_base=["stubs/alloc.c: the fault-injecting allocator model behind the library's H3_ALLOC_PREFIX switch (malloc/calloc/realloc/free "
+                  "delegating to CBMC's built-in heap model, which supplies the double-free / invalid-free obligations)"],
+    not_decided=["'results identical with the default allocator' is structural (H3_MEMORY is a token paste; the functions read no allocator state) "
+                 "and not a separate obligation"],
+    assumptions=[],
+    level_text="Unbounded proof per function where marked so in the evidence (gridDiskDistances, gridDisk, areNeighborCells, the experimental "
+               "polyfill entry points): every allocation may fail, all inputs symbolic. compactCells and polygonToCells are bounded stand-ins "
+               "(stated bounds), never counted as proved.",
+    level_note="Trusts the allocator model in stubs/alloc.c and CBMC's heap model; callees that do not allocate are replaced by frame-only contracts.")
+J(name="c17.gridDiskDistances", props=["C17", "C18"], harness="c17.c", entry="h_gridDiskDistances", alloc=True,
+  enforce=["gridDiskDistances/gridDiskDistances_c17"],
+  replace=["maxGridDiskSize/maxGridDiskSize_c17", "gridDiskDistancesUnsafe/gridDiskDistancesUnsafe_c17",
+           "_gridDiskDistancesInternal/_gridDiskDistancesInternal_c17"], timeout=900)
+J(name="c17.gridDisk", props=["C17", "C18"], harness="c17.c", entry="h_gridDisk", alloc=True,
+  enforce=["gridDisk/gridDisk_c17"], replace=["gridDiskDistances/gridDiskDistances_c17"])
+J(name="c17.gridDisk.k1", props=["C17"], harness="c17.c", entry="h_gridDisk_k1", alloc=True,
+  enforce=["gridDisk/gridDisk_k1_c17"], replace=["gridDiskDistances/gridDiskDistances_c17"])
+J(name="c17.areNeighborCells", props=["C17", "C18"], harness="c17.c", entry="h_areNeighborCells", alloc=True,
+  enforce=["areNeighborCells/areNeighborCells_c17"], replace=["gridDisk/gridDisk_k1_c17"], unwind=17,
+  replay=dict(fn="areNeighborCells_alloc", args=["a", "b"]))
+
+
+def select(prop, tier, seed, sel):
+    """quick tier: per-pair families are cut down to the boundary pairs plus a seed-chosen sample."""
+    if tier != "quick":
+        return sel
+    import random
+    rnd = random.Random(seed)
+    keep = set([(0, 0), (15, 15), (0, 1), (14, 15), (0, 2), (7, 9)])
+    deep = [(pr, cr) for (pr, cr) in PAIRS if cr - pr >= 3]
+    keep.update(rnd.sample(deep, 4))
+    out = []
+    for j in sel:
+        if "pair" in j and tuple(j["pair"]) not in keep:
+            continue
+        out.append(j)
+    return out
